@@ -159,7 +159,9 @@ func (g *egen) gen(t gty, d int) string {
 		case 1:
 			return par(sub(num) + " " + pick(r, []string{">", ">=", "<", "<="}) + " " + sub(num))
 		case 2:
-			return par(sub(gInt) + " " + pick(r, []string{"=", "!="}) + " " + sub(gInt))
+			// = / != on numbers: integers, floats and mixed pairs (a mixed pair is compared as
+			// float64, like > >= < <=)
+			return par(sub(num) + " " + pick(r, []string{"=", "!="}) + " " + sub(pick(r, []gty{gInt, num})))
 		case 3:
 			return par(sub(gBool) + " " + pick(r, []string{"&", "|", "and", "or"}) + " " + sub(gBool))
 		case 4:
